@@ -702,6 +702,15 @@ func (r *FnRun) unop(fr *Frame, st *State, x *ssa.UnOp) Val {
 		// channel receive: any value
 		r.note("channel receive yields an arbitrary value")
 		res := r.freshVal(st, x.Type(), "recv")
+		// a contract file may count receive operations per channel
+		// ("ghost recvs(ref) int"): waiting for a channel is then observable
+		if g := r.e.cs.Ghosts["recvs"]; g != nil && g.Arity == 1 {
+			ch := termOf(v)
+			arr := r.ghostTerm(st, g)
+			na := r.fresh("G_recvs", arr.Sort)
+			r.assume(Eq(na, Store(arr, ch, Add(Select(arr, ch), IntLit(1)))))
+			st.ghost["recvs"] = na
+		}
 		return res
 	}
 	unsup("unary operator %s", x.Op)
